@@ -285,8 +285,9 @@ class C18(Prop):
                 a = pc.arg_of_flag(c, prev[0])
                 if a is not None and a["optional"] and pc.takes_value(a):
                     return "F-C18c"
-        if case["form"] == "glued":
-            return "F-C18a"
+        # (F-C18a -- glued short value of a core option torn apart inside a task context -- was
+        #  repaired in /repo by dd95c66: no longer attributable; the witness stays in
+        #  corpus/C18/witnesses.json, so a revert is reported as a VIOLATION)
         return None
 
     def finding_of(self, case, obs):
